@@ -4,7 +4,9 @@ from . import common as C, gen_int as G, oracles as O
 LEAN_MODULE = "Urandom.Props.C13"
 RULE = ("requests: every implemented target type of StandardUniform (bool, 8..128-bit ints, isize/usize, Wrapping, f32/f64, char, NonZero*, tuples up to 12, arrays, Random::fill) "
         "x structured words (0, !0, single bits, words truncating to zero for NonZero, words hitting the char thresholds 0x800/0xDFFF/0xE000/0x10FFFF at both ends of their "
-        "acceptance interval and rejected words); Alnum on all 64 six-bit indices exhaustively; builds: debug and release (char uses from_u32_unchecked in release). "
+        "acceptance interval and rejected words); Alnum on all 64 six-bit indices exhaustively; extra (implementation only): exact preimage interval search for boundary "
+        "scalar values of char, preimage counts over complete small word grids for the NonZero / 128-bit types, and Alnum run on ALL 2^32 first words (x 2 second words): "
+        "equal counts for the 62 characters decided by the first word, undecided first words leave the decision to the next word; builds: debug and release (char uses from_u32_unchecked in release). "
         "non-trivial = at least one word scripted; distinct = distinct request line")
 ASSUMPTIONS = ["64-bit target"]
 
@@ -62,6 +64,55 @@ def extra(binary, build, tier, rng):
         yield {"kind": "oracle", "build": build, "request": mk(info[min(info)][0]), "impl": str(info)[:600], "model": "", "oracle": msg}
     yield {"kind": "count", "what": "char-preimage-probes", "n": p.calls}
     yield from grid_counts(binary, build, prof)
+    yield from alnum_exact(binary, build)
+
+
+def alnum_exact(binary, build):
+    """Alnum, exactly: ALL 2^32 first words are run on the implementation (with two different second words); the first words that decide
+    the character alone must give each of the 62 characters equally often, and a first word that does not decide alone must leave the
+    decision entirely to the following word (then the weights are equal by recursion)."""
+    import subprocess
+    from concurrent.futures import ThreadPoolExecutor
+    from .oracles import parse_ok
+    ALNUM = set(map(ord, "0123456789ABCDEFGHIJKLMNOPQRSTUVWXYZabcdefghijklmnopqrstuvwxyz"))
+    parts = 16
+    step = (1 << 32) // parts
+    total = 0
+    for second in (5, 0xF4000000):
+        rc, alone, err = C.run_lines(binary, ["run"], ["alnum n=1 words=%d" % second])
+        fa = parse_ok(alone[0])
+        reqs = ["enum32 kind=alnum lo=%d hi=%d second=%d" % (i * step, (i + 1) * step, second) for i in range(parts)]
+        with ThreadPoolExecutor(max_workers=parts) as ex:
+            outs = list(ex.map(lambda q: C.run_lines(binary, ["run"], [q])[1][0], reqs))
+        total += 1 << 32
+        decided, undecided = {}, {}
+        for o in outs:
+            for ent in o.split(";"):
+                if not ent:
+                    continue
+                key, n = ent.split("=")
+                ch, used = map(int, key.split(":"))
+                (decided if used == 1 else undecided).setdefault((ch, used), 0)
+                (decided if used == 1 else undecided)[(ch, used)] += int(n)
+        req0 = "enum32 kind=alnum lo=0 hi=4294967296 second=%d" % second
+        bad_chars = [ch for (ch, _) in list(decided) + list(undecided) if ch not in ALNUM]
+        if bad_chars:
+            yield {"kind": "oracle", "build": build, "request": req0, "impl": str(sorted(decided.items()))[:300], "model": "", "oracle": "Alnum produced a character outside [0-9A-Za-z]: code %d" % bad_chars[0]}
+            continue
+        cnt = {ch: n for (ch, _), n in decided.items()}
+        if len(cnt) != 62 or len(set(cnt.values())) != 1:
+            lo_c, hi_c = min(cnt, key=cnt.get), max(cnt, key=cnt.get)
+            yield {"kind": "oracle", "build": build, "request": req0, "impl": str(sorted(cnt.items()))[:400], "model": "",
+                   "oracle": "Alnum: over ALL 2^32 first words, %d characters are decided by the first word alone and their preimage counts are not equal: %r has %d, %r has %d"
+                             % (len(cnt), chr(hi_c), cnt[hi_c], chr(lo_c), cnt[lo_c])}
+            continue
+        if fa and len(fa[0]) == 1:
+            want = ord(fa[0])
+            odd = [(k, n) for k, n in undecided.items() if k != (want, 2)]
+            if odd:
+                yield {"kind": "oracle", "build": build, "request": req0, "impl": str(sorted(undecided.items()))[:300], "model": "",
+                       "oracle": "Alnum: a first word that does not decide alone must leave the decision to the next word (%r, 2 words); found (character, words used) = %s" % (chr(want), odd[:3])}
+    yield {"kind": "count", "what": "alnum-first-words-enumerated", "n": total}
 
 
 def grid_counts(binary, build, prof):
